@@ -16,7 +16,7 @@ __all__ = [
     'Unsupported', 'Inconclusive', 'Ctx', 'Explorer', 'cur', 'SVal', 'SBool', 'SInt',
     'SFloat', 'is_sym', 'ite', 'sand', 'sor', 'snot', 'to_z3_bool', 'to_z3_int',
     'to_z3_real', 'as_sfloat', 'seq', 'slt', 'sle', 'fresh_int', 'fresh_real',
-    'fresh_bool', 'assume', 'branch', 'concretize_int', 'z3val',
+    'fresh_bool', 'assume', 'branch', 'concretize_int', 'z3val', 'fl_square',
 ]
 
 
@@ -80,6 +80,7 @@ class Ctx:
         self.notes = []             # free-form per-path notes (e.g. fallback forks)
         self.defs = []              # definitional axioms (sqrt etc.)
         self.memo = {}              # per-path memo for stubs (function of structural argument)
+        self.refine = []            # defining equations of abstracted operations (SQ(t) == t*t ...)
 
     # --- naming -------------------------------------------------------------------
     def name(self, base):
@@ -134,7 +135,26 @@ class Ctx:
             self.model = saved
         return ok
 
-    def get_model(self):
+    def get_model(self, exact=False):
+        """A model of the path condition.  exact=True: also satisfying the defining equations of
+        abstracted operations (needed before a model is turned into a concrete input)."""
+        if exact and self.refine:
+            self.solver.push()
+            try:
+                for d in self.refine:
+                    self.solver.add(d)
+                t0 = time.perf_counter()
+                r = self.solver.check()
+                self.stats['queries'] += 1
+                self.stats['solver_s'] += time.perf_counter() - t0
+                if r == z3.sat:
+                    return self.solver.model()
+                if r == z3.unsat:
+                    raise Vacuous('path infeasible once abstracted operations are given their exact meaning')
+                self.stats['unknown'] += 1
+                raise Inconclusive('solver unknown on exact model: %s' % self.solver.reason_unknown())
+            finally:
+                self.solver.pop()
         if self.model is None:
             if not self._check():
                 raise Vacuous('path condition infeasible')
@@ -210,8 +230,25 @@ class Ctx:
         self.stats['solver_s'] += time.perf_counter() - t0
         if r == z3.unsat:
             return 'proved', None
-        if r == z3.sat:
+        if r == z3.sat and not self.refine:
             return 'refuted', self.solver.model()
+        if r == z3.sat:
+            # candidate under the abstraction: re-check with the exact meaning of abstracted operations
+            self.solver.push()
+            try:
+                for d in self.refine:
+                    self.solver.add(d)
+                self.solver.add(z3.Not(prop))
+                t0 = time.perf_counter()
+                r = self.solver.check()
+                self.stats['queries'] += 1
+                self.stats['solver_s'] += time.perf_counter() - t0
+                if r == z3.unsat:
+                    return 'proved', None
+                if r == z3.sat:
+                    return 'refuted', self.solver.model()
+            finally:
+                self.solver.pop()
         self.stats['unknown'] += 1
         return 'unknown', None
 
@@ -543,7 +580,10 @@ class SBool(SVal):
     def __float__(self): return float(bool(self))
 
     def __repr__(self):
-        return 'SBool(%s)' % self.t
+        return '<SBool>'
+
+    def __format__(self, spec):
+        return '<SBool>'
 
 
 def _is_np_bool(o):
@@ -719,7 +759,10 @@ class SInt(SVal):
         return self
 
     def __repr__(self):
-        return 'SInt(%s)' % self.t
+        return '<SInt>'       # never print terms: the repo formats values into log messages
+
+    def __format__(self, spec):
+        return '<SInt>'
 
     # numpy-scalar look-alikes
     @property
@@ -919,7 +962,10 @@ class SFloat(SVal):
         raise Unsupported('int() of a symbolic real')
 
     def __repr__(self):
-        return 'SFloat(k=%s, v=%s)' % (self.k, self.v)
+        return '<SFloat>'
+
+    def __format__(self, spec):
+        return '<SFloat>'
 
     @property
     def dtype(self):
@@ -1064,6 +1110,27 @@ def fl_sqrt(a):
     neg = AND(a.fin, LT(a.v, 0))
     k = I(OR(a.nan, a.ninf, neg), K_NAN, I(a.pinf, K_PINF, K_FIN))
     return SFloat.mk(k, r)
+
+
+_SQ = z3.Function('SQ', z3.RealSort(), z3.RealSort())
+
+
+def fl_square(a):
+    """x*x kept opaque (uninterpreted SQ with SQ(x) >= 0); the defining equation is only used when a
+    model has to be exact (witnesses, counterexamples).  Proofs under the abstraction are sound."""
+    if isinstance(a, (SInt, int)) and not isinstance(a, bool):
+        return a * a
+    a = as_sfloat(a)
+    if a.fin is not True or _isc(a.v):
+        return a * a
+    ctx = cur()
+    t = _SQ(a.v)
+    key = ('sq', t.get_id())
+    if key not in ctx.memo:
+        ctx.memo[key] = True
+        ctx.add(t >= 0)
+        ctx.refine.append(t == a.v * a.v)
+    return SFloat(K_FIN, t)
 
 
 _LOG = z3.Function('LOG', z3.RealSort(), z3.RealSort())
